@@ -703,7 +703,7 @@ type c08Work struct {
 func TestVerifC08Sign(t *testing.T) {
 	r := vrep.Start(t, "C08", "sign")
 	defer r.Finish()
-	timeout := 3 * time.Minute
+	timeout := 90 * time.Second
 
 	var wallets []*c08Wallet
 	fx, err := c08FixtureWallet()
@@ -779,15 +779,20 @@ func TestVerifC08Sign(t *testing.T) {
 						c08Policy{Name: "swap", Victim: (si + mi + 1) % w.cfg.H, Parity: 0},
 						c08Policy{Name: "late", Victim: (si + 2*mi) % w.cfg.H})
 				} else {
-					if !w.fixture && mi == 1 {
-						pols = []c08Policy{{Name: "swap", Victim: 1, Parity: 1}}
-					}
-					if !w.fixture && mi == 2 {
-						pols = []c08Policy{{Name: "late", Victim: 0}}
-					}
-					// quick: the fixture group signs with 3 subsets, one message each
-					if w.fixture && (si > 2 || mi != si) {
+					// quick: every subset signs one message; message and policy rotate
+					if mi != si%len(msgs) {
 						continue
+					}
+					if w.fixture && si > 2 {
+						continue
+					}
+					if !w.fixture {
+						switch (si + len(signers)) % 3 {
+						case 1:
+							pols = []c08Policy{{Name: "swap", Victim: 1, Parity: 1}}
+						case 2:
+							pols = []c08Policy{{Name: "late", Victim: 0}}
+						}
 					}
 				}
 				for _, pol := range pols {
